@@ -148,7 +148,7 @@ def trace(B):
 
 def literal_scan():
     hits = []
-    tree = ast.parse(open("/repo/xeofs/validation/bootstrapper.py").read())
+    tree = ast.parse(open(bmod.__file__).read())
     for fn in ast.walk(tree):
         if not isinstance(fn, ast.FunctionDef):
             continue
